@@ -230,6 +230,9 @@ func (ek *EAPOLKey) DecodeFromBytes(data []byte, df gopacket.DecodeFeedback) err
 			Payload:  data[totalLength:],
 		}
 	} else {
+		// no encrypted key data in this frame: a reused layer must not keep (and
+		// SerializeTo must not write) the key data of an earlier one
+		ek.EncryptedKeyData = nil
 		ek.BaseLayer = BaseLayer{
 			Contents: data[:eapolKeyFrameLen],
 			Payload:  data[eapolKeyFrameLen:],
